@@ -12,10 +12,10 @@ except Exception:
 CHECKS = {
  # id: (engine, technique, level text, note, design_ref)
  "C01": ("E1 sweep", "bounded exhaustive enumeration of a source model (spines x trivia deviations x all widths), normal-form oracle",
-         "every well-formed text of the bounded source model (context x production spine x trivia deviation at every parser-visible gap) is formatted by the real library at every max_width that can change the output and several indent units; the normal form N of input and output trees must be equal. Exhaustive within the stated bounds, no sampling.",
-         "trusts typst_syntax 0.13.1 as parser; the normal form N (DESIGN.md section 4) as definition of 'layout'; bounds: spine depth (2 quick / 3 thorough, decorated spines to 4-5), <=2 deviations over 33 trivia forms (every Typst line terminator, 10 block-comment and 5 line-comment forms, directives), 5 atom sizes; plus the whitespace-spelling and prose families; 17 contexts x 250 productions (DESIGN.md section 13.2)", "5/C01"),
+         "every well-formed text of the bounded source model (context x production spine x trivia deviation at every parser-visible gap) is formatted by the real library at every max_width that can change the output, several indent units (incl. the degenerate units 0 and 1) and the ends of blank_lines_upper_bound (0, usize::MAX; thorough 1 and 3 as well); the normal form N of input and output trees must be equal. Exhaustive within the stated bounds, no sampling.",
+         "trusts typst_syntax 0.13.1 as parser; the normal form N (DESIGN.md section 4) as definition of 'layout'; bounds: spine depth (2 quick / 3 thorough, decorated spines to 4-5), <=2 deviations over 34 trivia forms (every Typst line terminator, 10 block-comment and 5 line-comment forms, directives), 5 atom sizes; plus the whitespace-spelling (incl. text blanks at line ends) and prose families; 17 contexts x 265 productions (incl. items that start on the line of another item's marker, floats ending in a dot before a field access, backslashes before separators) (DESIGN.md section 13.2)", "5/C01"),
  "C03": ("E1 sweep", "bounded exhaustive enumeration of the source model, F(F(x)) = F(x) per configuration",
-         "same space as C01; for every configuration the second pass must reproduce the first byte for byte", "bounds as C01", "5/C03"),
+         "same space as C01 plus the degenerate-document and line-end families; for every configuration the second pass must reproduce the first byte for byte", "bounds as C01", "5/C03"),
  "C04": ("E1 sweep", "bounded exhaustive enumeration of the source model, re-parse oracle",
          "same space as C01; every distinct output re-parsed by typst_syntax must be free of syntax errors", "bounds as C01", "5/C04"),
  "C06": ("E1 sweep", "bounded exhaustive enumeration: every comment form at every token gap, comment census oracle",
@@ -27,13 +27,13 @@ CHECKS = {
  "C09": ("E1 sweep", "bounded exhaustive enumeration of a math-centred model, per-Math-node gap-class oracle",
          "all sequences of <=2/3 math items (incl. real function calls) with none/space/linefeed between them in every math context, every whitespace spelling between math items, plus math skeletons (real calls with named, spread, hashed, 2D arguments) with deviations incl. every other line terminator x all widths", "bounds: sequence length, context list", "5/C09"),
  "C10": ("E1 sweep", "bounded exhaustive enumeration: literal alphabet x every context spine, literal census oracle",
-         "44 code literals and 14 markup literals in every hole of every context spine (with re-indented continuation-line variants) x all widths; literal token census equal", "bounds: literal alphabet, spine depth", "5/C10"),
+         "53 code literals and 19 markup literals (every Typst line terminator inside inline raw text and strings) in every hole of every context spine (with re-indented continuation-line variants) x all widths; literal token census equal", "bounds: literal alphabet, spine depth", "5/C10"),
  "C11": ("E1 sweep", "bounded exhaustive enumeration of the source model + degenerate documents, hygiene oracle",
-         "same space as C01 plus degenerate documents and the line-end family (11 verbatim carriers x 15 blank characters x LF/CRLF/CR/mixed x 5 remainders); every output non-empty, LF-terminated, no line (split at LF) ending in any char::is_whitespace", "bounds as C01", "5/C11"),
+         "same space as C01 plus degenerate documents (incl. verbatim text ending the document with every kind of blank, with and without a final line terminator) and the line-end family (11 verbatim carriers x 15 blank characters x LF/CRLF/CR/mixed x 5 remainders); every output non-empty, LF-terminated, no line (split at LF) ending in any char::is_whitespace", "bounds as C01", "5/C11"),
  "C12": ("E1 sweep", "bounded exhaustive enumeration at a no-wrap width x tab_spaces 1..8, proportional-indent oracle",
          "skeletons with line-feed deviations at a width beyond any line x units 1..8 (all pairs via the smallest unit) and all widths x units 3,5,7", "exempt lines computed from the output's own tree", "5/C12"),
  "C13": ("E1 sweep", "bounded exhaustive enumeration: every (start,end) pair on character boundaries of every model source, splice oracle",
-         "every model source (and single-character damages) x every range incl. ranges past the end x 2-3 configurations: no panic, node range, coverage, splice re-parses and keeps N", "reduced model (spine depth <=1 quick)", "5/C13"),
+         "every model source (and single-character damages; markup and math sources also with every other line terminator of Typst) x every range incl. ranges past the end x 2-3 configurations: no panic, node range, coverage, splice re-parses and keeps N", "reduced model (spine depth <=1 quick)", "5/C13"),
  "C02": ("E1 sweep + E6 compiler world", "bounded exhaustive enumeration of a program sub-model, compile-and-render oracle (real Typst compiler)",
          "every well-formed program of the source model behind a fixed two-line prelude (virtual module binds all atoms) x all widths; input and each distinct output are compiled and rendered in an in-memory world: same pages, same pixels, same info, or same diagnostics",
          "self-contained programs only; embedded fonts; 2 px/pt; bounds as C01 (smaller)", "5/C02"),
@@ -41,22 +41,22 @@ CHECKS = {
          "all strings over 38 structural characters (<=4 quick / <=5 thorough), all token strings over 28/42 tokens, every single-character damage of every canonical model instance, Unicode blanks in structural contexts, numeric literals at every integer-width limit wherever the formatter reads or reprints a number x 24 extreme configurations; 18 nesting ladders up to the parser's own limit; abort/hang detected by the parent process, culprit isolated by bisection",
          "8 MiB stack per worker thread; tab_spaces/max_width at their ends and representative points", "5/C05"),
  "C14": ("E2 stateright CLI exploration", "explicit-state BFS (stateright) over abstract file trees, every transition executes the real CLI binary, reference model oracle",
-         "all trees with <=2 (thorough 3) entries over all file kinds (+1 entry over plain kinds), plus single files that differ from their formatted text only at line ends or are blank, x every --check invocation shape (ordered file lists <=3 incl. missing path / directory-as-file / symlinks to three kinds of target, stdin, format-all with 9 directory spellings, --check before/after the subcommand, -i before the subcommand, both creation orders next to a hidden file) x style options: files and mtimes untouched, no formatted text on stdout, exit status per the statement",
-         "runs as root: invalid UTF-8, missing paths, directories and dangling links stand in for unreadable files", "6/C14"),
+         "all trees with <=2 (thorough 3) entries over all file kinds (+1 entry over plain kinds), plus single files that differ from their formatted text only at line ends, are blank, or have a syntax error next to things a formatter would change, x every --check invocation shape (ordered file lists <=3 incl. missing path / directory-as-file / symlinks to three kinds of target, files that can be read but not written (immutable attribute), stdin, format-all with 9 directory spellings and on a missing directory, --check before/after the subcommand, -i before the subcommand, both creation orders next to a hidden file) x style options: files and mtimes untouched, no formatted text on stdout, exit status per the statement",
+         "runs as root: invalid UTF-8, missing paths, directories and dangling links stand in for unreadable files; the immutable attribute (chattr +i, supported by the tmpfs sandbox) stands in for a file that cannot be written", "6/C14"),
  "C15": ("E2 stateright CLI exploration", "explicit-state BFS (stateright) over abstract file trees, every transition executes the real CLI binary, reference model oracle",
          "same state space as C14 with -i and format-all (writing) actions, BFS to depth 2 (thorough 4) so that second runs and mixed sequences are transitions from non-initial states: written iff eligible/readable/well-formed/different, exact bytes, others untouched incl. mtime, error isolation, exit status",
          "as C14", "6/C15"),
  "C16": ("E2 batch", "exhaustive enumeration of the option space (every column 0..400, every tab-width 0..16, reorder) x corpus x every front-end against the in-process library",
-         "corpus of ~95 files (option-sensitive sources, erroneous texts, control characters, last lines around the 1 024-byte stdout buffer and texts beyond the 64 KiB pipe buffer, with/without final line feed) x 870 (quick) / 13 634 (thorough) configurations x {stdout multi-file, stdin, -i, format-all, format_with_width, format_with_width on its own output at other widths}: byte equality with Typstyle::new(cfg).format_content",
+         "corpus of ~95 files (option-sensitive sources, erroneous texts, control characters, last lines around the 1 024-byte stdout buffer and texts beyond the 64 KiB pipe buffer, with/without final line feed) x 1 160 (quick: every column with tab 2, every tab with columns 20 and 80, every pair column 0..17 x tab 0..16) / 13 634 (thorough) configurations x {stdout multi-file, stdin, -i, format-all, format_with_width, format_with_width on its own output at other widths}: byte equality with Typstyle::new(cfg).format_content",
          "library reference linked from the same working tree", "6/C16"),
  "C17": ("E3 baton scheduler + history BFS", "controlled-scheduler exploration of real OS threads at hook points (all schedules up to a preemption bound, CHESS style) + exhaustive call histories in fresh processes",
-         "18-call colliding alphabet (same-shape pairs for every per-node predicate, a 300x300 pyramid, a narrow 140-level call); every call alone in 3 fresh processes; every history of <=3 calls x 3 thread-assignment modes in a fresh process; DFS over all interleavings of 2-3 real threads at the --cfg typstyle_verif hook points within preemption bound 2 (thorough 3); oracle: result of the same call alone in a fresh process",
-         "interleaving at hook granularity; no weak-memory modelling; replay determinism checked before exploring", "6/C17"),
+         "19-call colliding alphabet (same-shape pairs for every per-node predicate, import items that tie under a sort key, a 300x300 pyramid, a narrow 140-level call); every call alone in 3 fresh processes; every history of <=3 calls x 3 thread-assignment modes in a fresh process; DFS over all interleavings of 2-3 real threads at the --cfg typstyle_verif hook points within preemption bound 2 (thorough 3); oracle: result of the same call alone in a fresh process",
+         "interleaving at hook granularity; no weak-memory modelling; before exploring, the default schedule is run twice: different decisions are a machinery error, identical decisions with different results are a violation (the subject is not deterministic)", "6/C17"),
  "C18": ("E4 cost explorer", "exhaustive enumeration of cyclic nesting paths over a recursive-construct alphabet, unrolled to a depth ladder; conversion counters from hooks",
          "all sort-compatible cyclic paths of length <=2 (thorough 3) over 81 recursive constructs (every layout with a fallback in both answers of its predicate) x depths 4..64 (256) x 2 positions x 3 innermost variants x 5 widths: every node converted <= 8 times, total <= 8 x nodes; 20 s hang watchdog",
          "counter sees the conversion entry points; the renderer only through the watchdog", "6/C18"),
  "C19": ("E1 sweep", "bounded exhaustive enumeration of import statements, permutation/guard/differential oracle",
-         "all import statements over a 10-item alphabet (sequences <=3/4, incl. duplicates, shadowing, nested paths, renames) x 4 module forms x 8 list shapes (incl. empty parentheses) x 4 contexts x trivia between items and at every token boundary inside an item x reorder off/on x all widths", "bounds: item alphabet, sequence length", "5/C19"),
+         "all import statements over an 11-item alphabet (sequences <=3/4, incl. duplicates, shadowing, nested paths, renames) x 4 module forms x 8 list shapes (incl. empty parentheses) x 4 contexts x trivia between items and at every token boundary inside an item x reorder off/on x all widths", "bounds: item alphabet, sequence length", "5/C19"),
 }
 
 def main():
